@@ -640,3 +640,40 @@ pub fn z_more3(a: In) -> Out {
         u64::from((a[0] as f32).max(f32::NAN) as u32) + u64::from(f32::NAN.min(a[1] as f32) as u32),
     ]
 }
+
+fn all_distinct(mut xs: &[u32]) -> bool {
+    while let [first, rest @ ..] = xs {
+        if rest.contains(first) {
+            return false;
+        }
+        xs = rest;
+    }
+    true
+}
+
+pub fn z_more4(a: In) -> Out {
+    let s: &[u32] = &a;
+    let (f, l) = match s {
+        [first, .., last] => (*first, *last),
+        _ => (0, 0),
+    };
+    let mid: u64 = match s {
+        [_, rest @ .., _] => rest.iter().map(|x| u64::from(*x & 0xFF)).sum(),
+        _ => 0,
+    };
+    let [p, q, tail @ ..] = a;
+    let t3: u64 = tail.iter().rev().take(3).map(|x| u64::from(*x & 0xF)).fold(0, |acc, x| acc * 16 + x);
+    let second_last = match &a {
+        [.., x, _] => *x,
+    };
+    [
+        u64::from(f) | u64::from(l) << 32,
+        mid,
+        u64::from(p ^ q),
+        t3,
+        u64::from(second_last),
+        u64::from(all_distinct(&a)),
+        u64::from(all_distinct(&a[..3])),
+        0,
+    ]
+}
